@@ -129,7 +129,9 @@ Definition opt_eqb {A} (e : A -> A -> bool) (a b : option A) : bool :=
 Fixpoint list_eqb {A} (e : A -> A -> bool) (a b : list A) : bool :=
   match a, b with [] , [] => true | x :: a', y :: b' => e x y && list_eqb e a' b' | _, _ => false end.
 Definition pair_eqb (a b : string * string) : bool := String.eqb (fst a) (fst b) && String.eqb (snd a) (snd b).
-Definition dict_eqb (a b : list (string * string)) : bool := list_eqb pair_eqb a b.
+(* a dict is a mapping: compared as a set of pairs (Python dict equality ignores insertion order) *)
+Definition dict_eqb (a b : list (string * string)) : bool :=
+  Nat.eqb (List.length a) (List.length b) && forallb (fun x => existsb (pair_eqb x) b) a && forallb (fun x => existsb (pair_eqb x) a) b.
 Definition bound_eqb (a b : bound) : bool :=
   opt_eqb String.eqb (b_exe a) (b_exe b) && N.eqb (b_nprocs a) (b_nprocs b) && N.eqb (b_mem a) (b_mem b)
   && dict_eqb (b_env a) (b_env b).
